@@ -98,7 +98,7 @@ class Rewriter:
         elif "doc" in js and r.random() < 0.5:
             out["doc"] = js["doc"]
         if self.hit("aliases"):
-            out["aliases"] = r.choice([[], ["Alias1"], ["x.Alias2", "Alias3"]])
+            out["aliases"] = r.choice([[], ["Alias1"], ["x.Alias2", "Alias3"], [js["name"].rsplit(".", 1)[-1], "Alias4"]])
         if self.hit("custom_attr"):
             out["x-custom"] = {"k": "v"}
         if t == "enum":
@@ -122,7 +122,11 @@ class Rewriter:
                 if self.hit("order"):
                     nf["order"] = r.choice(["ascending", "descending", "ignore"])
                 if self.hit("aliases"):
-                    nf["aliases"] = ["was_" + f["name"]]
+                    # former names: fresh ones, the field's own name, the name of a sibling
+                    # (two fields that swapped names between versions)
+                    sib = [g["name"] for g in js.get("fields", []) if g["name"] != f["name"]]
+                    nf["aliases"] = r.choice([["was_" + f["name"]], [f["name"], "was_" + f["name"]], [r.choice(sib)] if sib else [f["name"]],
+                                              ["was_" + f["name"], "was_" + f["name"]]])
                 if self.hit("custom_attr"):
                     nf["meta"] = 3
                 fields.append(_shuffle_keys(nf, r))
